@@ -12,6 +12,7 @@ for id in $ids; do
   git -C /repo apply $PWD/$d/patch.diff
   out=$(VERIF_SEED=${VERIF_SEED:-1} ./check $prop --tier quick 2>&1); rc=$?
   git -C /repo checkout -- .
+  git -C /verif checkout -- lean/Generated   # the translators regenerated the model from the patched sources
   {
     echo "seed $id applied to /repo $(git -C /repo rev-parse --short HEAD) with 'git -C /repo apply', then './check $prop --tier quick' (VERIF_SEED=${VERIF_SEED:-1}), then 'git -C /repo checkout -- .'"
     echo "exit code: $rc"
